@@ -252,15 +252,129 @@ def replay_can_run(ctx, ob):
         return {"confirmed": False, "error": f"{type(e).__name__}: {e}"}
 
 
+def membership_histories(ctx: RunCtx) -> BoundedResult:
+    """Bounded stand-in at the entry point (real orchestrators, controlled clock): the set of polling runners changes while its size stays the same
+    (one runner stops heartbeating, a new one joins between two polls of a survivor); at every instant of a grid at most one runner is authorised,
+    and over a whole cycle every runner is authorised at some instant."""
+    from .c16 import Clock, controlled_clock
+    from .realapp import real_app, runner_ctx
+    res = BoundedResult("membership_histories", "3 and 4 runners polling should_run_atomic_service every 20 s on both backends; after two cycles the oldest (or the second) "
+                        "runner falls silent and a new one joins within one polling period; exclusion checked on a 5 s grid over three further cycles, coverage per cycle")
+    n = 0
+    with controlled_clock():
+        for backend in ("mem", "sqlite"):
+            for n_runners, leaver in ((3, 0), (3, 1), (4, 0)):
+                n += 1
+                Clock.t = 1_800_000_000.0
+                with real_app(backend, atomic_service_interval_minutes=6.0, atomic_service_spread_margin_minutes=0.5,
+                              runner_considered_dead_after_minutes=1.0) as app:
+                    orch = app.orchestrator
+                    names = [f"runner-{chr(65 + k)}" for k in range(n_runners)]
+                    ctxs = {nm: runner_ctx(nm) for nm in names}
+                    for nm in names:                      # distinct creation times, in name order
+                        orch.register_runner_heartbeats([nm], can_run_atomic_service=True)
+                        Clock.t += 1.0
+                    alive = list(names)
+
+                    def poll_all():
+                        return [nm for nm in alive if orch.should_run_atomic_service(ctxs[nm])]
+                    bad = None
+                    for _ in range(2 * 18):               # two cycles of 360 s, polls every 20 s
+                        poll_all()
+                        Clock.t += 20.0
+                    gone = alive.pop(leaver)              # falls silent
+                    Clock.t += 61.0                       # ... long enough to drop off the active list; nobody polls meanwhile
+                    newcomer = "runner-Z"
+                    ctxs[newcomer] = runner_ctx(newcomer)
+                    alive.append(newcomer)
+                    orch.register_runner_heartbeats(alive, can_run_atomic_service=True)
+                    seen_auth = {nm: 0 for nm in alive}
+                    for _ in range(3 * 72):               # three cycles on a 5 s grid
+                        auth = poll_all()
+                        for nm in auth:
+                            seen_auth[nm] += 1
+                        if len(auth) > 1 and bad is None:
+                            bad = f"{auth} authorised at the same instant (t0+{Clock.t - 1_800_000_000.0:.0f} s) after {gone} was replaced by {newcomer}"
+                        Clock.t += 5.0
+                    never = [nm for nm, k in seen_auth.items() if k == 0]
+                    if bad or never:
+                        res.failures.append({"what": f"{backend}: {n_runners} runners: " + (bad or "") + (f" never authorised in three cycles: {never}" if never else ""),
+                                             "input": {"runners": n_runners, "leaver": gone}, "finding_key": f"{backend}:membership-change"})
+    res.cases = n
+    res.distinct = n
+    res.samples = [{"runners": ["A", "B", "C"], "history": "A silent, Z joins, C polls"}]
+    return res
+
+
+def entry_point(reg: Registry, RI):
+    """BaseOrchestrator.should_run_atomic_service: the decision of THIS poll is can_run_atomic_service applied to the runner's id, the list of
+    eligible active runners read in this very call, the current time and the CONFIGURED interval and margin - nothing remembered from earlier
+    polls and no adjusted parameters (a runner's position depends on who is in the list now, and the margin is what keeps windows apart)."""
+    from pyvc.contract import Shape
+    from pyvc.types import ObjT
+    from pyvc.values import Val
+    BO = "pynenc.orchestrator.base_orchestrator"
+    RS = SeqT(RI)
+    CTX = Record("RunnerContextId", [("runner_id", STR)])
+    reg.records["pynenc.runner.runner_context:RunnerContext"] = CTX
+    reg.add_shape(Shape("ASConf", fields={"atomic_service_interval_minutes": REAL, "atomic_service_spread_margin_minutes": REAL,
+                                          "atomic_service_check_interval_minutes": REAL}))
+    reg.add_shape(Shape("ASApp", fields={"conf": ObjT("ASConf")}))
+    reg.add_shape(Shape("ASOrchestrator", fields={"app": ObjT("ASApp")}, cls=(BO, "BaseOrchestrator"),
+                        abstract_methods={"register_runner_heartbeats": "ASOrchestrator.heartbeats", "get_active_runners": "ASOrchestrator.active"}))
+    reg.shapes["ASOrchestrator"].auto_fields = True
+    reg.add(Contract(key="ASOrchestrator.heartbeats", shape="ASOrchestrator", params={"runner_ids": SeqT(STR), "can_run_atomic_service": BOOL}, frame=[],
+                     assumed=True, check_invariants=False, cases=[Case("recorded")], note="heartbeat of the polling runner (C04 contract)"))
+    reg.contracts["ASOrchestrator.heartbeats"].event = True
+    reg.add(Contract(key="ASOrchestrator.active", shape="ASOrchestrator", params={"can_run_atomic_service": Opt(BOOL)}, result=RS, frame=[], assumed=True,
+                     check_invariants=False, cases=[Case("listed", ensures=[("distinct-ids", lambda c: distinct_ids(RI, c.result))])],
+                     note="eligible active runners, oldest first (C04 / C16)"))
+    reg.contracts["ASOrchestrator.active"].event = True
+    reg.contracts[f"{AS}:can_run_atomic_service"].event = True
+
+    def calls(c, suffix):
+        return [e for e in c.st.events if isinstance(e, dict) and e.get("ev") == "call" and e["key"].endswith(suffix)]
+
+    def decided_now(c):
+        cr, act = calls(c, "can_run_atomic_service"), calls(c, "ASOrchestrator.active")
+        if len(cr) != 1 or len(act) != 1:
+            return z3.BoolVal(False)
+        a = cr[0]["args"]
+        listed = act[0]["result"]
+        flag = act[0]["args"]["can_run_atomic_service"]
+        return z3.And(a["runner_id"].term == CTX.get(c.arg("runner_ctx"), "runner_id"),
+                      a["active_runners"].term == listed.term,
+                      Opt(BOOL).is_some(flag.term), Opt(BOOL).val(flag.term),
+                      a["service_interval_minutes"].term == c.f("app.conf.atomic_service_interval_minutes"),
+                      a["spread_margin_minutes"].term == c.f("app.conf.atomic_service_spread_margin_minutes"),
+                      c.result == cr[0]["result"].term)
+
+    def heartbeat_first(c):
+        hb = calls(c, "ASOrchestrator.heartbeats")
+        evs = [e for e in c.st.events if isinstance(e, dict) and e.get("ev") == "call"]
+        return z3.BoolVal(len(hb) == 1 and bool(evs) and evs[0] is hb[0])
+    entry = Contract(
+        key=f"{BO}:BaseOrchestrator.should_run_atomic_service", shape="ASOrchestrator", params={"runner_ctx": CTX}, result=BOOL, frame=[],
+        requires=[("configured-interval-positive-margin-nonnegative", lambda c: z3.And(c.f("app.conf.atomic_service_interval_minutes") > 0,
+                                                                                     c.f("app.conf.atomic_service_spread_margin_minutes") >= 0))],
+        cases=[Case("decision", ensures=[
+            ("C12:this-poll's-decision=can_run(own id, the list read in this call, now, configured interval, configured margin)", decided_now),
+            ("registers-its-own-heartbeat-as-eligible-before-reading-the-list", heartbeat_first)])],
+        properties=[PID])
+    reg.add(entry)
+    return entry
+
+
 def build(ctx: RunCtx) -> Prop:
     T = Types(ctx.src)
     reg = base_registry(ctx.src, T)
     verify, RI = contracts(reg)
+    verify.append(entry_point(reg, RI))
     return Prop(
         pid=PID, title="atomic-service time slots: can_run_atomic_service authorises a runner exactly inside its own window; windows of "
                        "distinct positions are disjoint, margin-separated, non-empty (real arithmetic); float grid cross-check on the real functions",
         level="proof", technique="contract-based deductive verification (AST->z3 VCs, nonlinear real arithmetic) + bounded float grid",
-        registry=reg, verify=verify, lemmas=[lemmas], bounded=[float_grid],
+        registry=reg, verify=verify, lemmas=[lemmas], bounded=[float_grid, membership_histories],
         replayers={"*can_run_atomic_service*": replay_can_run},
         assumptions=["machine floats treated as mathematical reals in the proof (the bounded float grid complements it)",
                      "Python float % for a positive divisor is the mathematical remainder in [0, divisor)",
